@@ -80,6 +80,34 @@ def main():
     acc, div = mechtrace.validate_mech("T_MsgQueue.tla", "T_MsgQueue.cfg", [(x1, bad2)], os.path.join(wdir, "mech"), "drop")
     log("[selftest] mechanism trace with a dropped check event: accepted=%d (expected 0)" % acc)
     ok &= acc == 0
+    # a divergence in the very last event of a file must be seen too
+    x2, e2 = next((x_, e_) for x_, e_ in mex if e_[-1]["ev"] == "ret")
+    bad3 = [dict(q) for q in e2]
+    bad3[-1]["res"] = "req" if bad3[-1]["res"] != "req" else "none"
+    acc, div = mechtrace.validate_mech("T_MsgQueue.tla", "T_MsgQueue.cfg", [(x2, bad3)], os.path.join(wdir, "mech"), "last")
+    log("[selftest] mechanism trace whose last event was corrupted: accepted=%d (expected 0)" % acc)
+    ok &= acc == 0
+    # writer chain: the marker traces of the C01 executions are behaviours of mech/WriterChain; a write moved in
+    # front of the predecessor's drop, and a writer dropped before its turn (the behaviour before F1), are not
+    chains = [c for x_ in order for c in mechtrace.writer_chains(ex[x_]) if c]
+    ch = next(c for c in chains if any(q["ev"] == "op" and q["k"] == 2 and q["op"] in ("write", "flush") for q in c)
+              and any(q["ev"] == "op" and q["k"] == 1 and q["op"] == "drop" for q in c))
+    acc, div = mechtrace.validate_mech("T_WriterChain.tla", "T_WriterChain.cfg", [("chain", ch)], os.path.join(wdir, "mech"), "wbase")
+    log("[selftest] writer-chain marker trace: accepted=%d (expected 1)" % acc)
+    ok &= acc == 1
+    i2 = next(i for i, q in enumerate(ch) if q["ev"] == "op" and q["k"] == 2 and q["op"] in ("write", "flush"))
+    i1 = next(i for i, q in enumerate(ch) if q["ev"] == "op" and q["k"] == 1 and q["op"] == "drop")
+    badw = list(ch)
+    w = badw.pop(i2)
+    badw.insert(i1, w)
+    acc, div = mechtrace.validate_mech("T_WriterChain.tla", "T_WriterChain.cfg", [("chain", badw)], os.path.join(wdir, "mech"), "wswap")
+    log("[selftest] writer 2 acting before writer 1 is dropped: accepted=%d (expected 0)" % acc)
+    ok &= acc == 0
+    f1 = [{"ev": "Reset", "plan": [[["w", "b"], ["f"]], [], [["w", "b"], ["f"]]]}, {"ev": "op", "k": 2, "op": "drop"},
+          {"ev": "op", "k": 3, "op": "write"}, {"ev": "op", "k": 1, "op": "write"}]
+    acc, div = mechtrace.validate_mech("T_WriterChain.tla", "T_WriterChain.cfg", [("chain", f1)], os.path.join(wdir, "mech"), "wf1")
+    log("[selftest] untouched writer dropped before its turn (pre-F1 behaviour): accepted=%d (expected 0)" % acc)
+    ok &= acc == 0
     # vacuity: coverage of the mechanism configurations
     for name, cfg, mod in (("MsgQueue_quick", "MsgQueue_quick.cfg", "MC_MsgQueue.tla"), ("TaskPool_c20_quick", "TaskPool_c20_quick.cfg", "../mech/TaskPool.tla"),
                            ("WriterChain_quick", "WriterChain_quick.cfg", "MC_WriterChain.tla"), ("ReaderChain_free", "ReaderChain_free.cfg", "MC_ReaderChain.tla")):
